@@ -2,5 +2,5 @@ From Coq Require Import ExtrOcamlBasic ZArith.
 From LX Require Import Model.ModuleWf Model.Gate.
 Definition ztypes_witness : Z * nat := (0%Z, 0%nat).
 Cd "extracted".
-Extraction "gate_model.ml" ztypes_witness finish loader_postb public_wfb wf_report.
+Extraction "gate_model.ml" ztypes_witness finish load_accepts loader_postb public_wfb wf_report.
 Cd "..".
